@@ -118,7 +118,7 @@ def gen_ctxF1(rng, tier):
         u = B.Universe(desc)
         _UNIS[u.modname] = u
         yield {"ctx": u.export_ctx(), "desc": desc, "_uni": u.modname}
-    for _ in range(n_cases(tier, 60, 600)):
+    for _ in range(n_cases(tier, 60, 400)):
         u, desc, ctx = new_universe(rng, F1_FEATURES)
         yield {"ctx": ctx, "desc": desc, "_uni": u.modname}
 
@@ -197,7 +197,7 @@ def excluded_region(desc, value):
 
 
 def gen_oracle(rng, tier):
-    for _ in range(n_cases(tier, 150, 1500)):
+    for _ in range(n_cases(tier, 150, 900)):
         u, desc, ctx = new_universe(rng, F1_FEATURES)
         for _ in range(6):
             try:
@@ -266,7 +266,7 @@ def gen_wide(rng, tier):
         u = B.Universe(desc)
         _UNIS[u.modname] = u
         yield {"ctx": u.export_ctx(), "value": value, "clazz": "Root", "desc": desc, "_uni": u.modname, "feat": W.FEAT}
-    for _ in range(n_cases(tier, 120, 1200)):
+    for _ in range(n_cases(tier, 120, 800)):
         u, desc, ctx = new_universe(rng, W.WIDE_FEATURES)
         for _ in range(5):
             try:
@@ -335,13 +335,17 @@ TRUSTED = [
 ]
 ASSUMPTIONS = []
 LEVEL_TEXT = (
-    "Partial. bind_generate_F1 (Props/C01.lean): generate -> abstract writer -> parseRoot is the identity, with no converter "
-    "warning, for every universe with ctxF1 (attributes, primitive- and model-typed elements optional/required/list, a text var, "
-    "class and field namespaces) and every instance with valF1, for both settings of ignore_default_attributes, all parser "
-    "configs and every Unicode Env; the excluded regions have machine-checked witnesses replayed on the real code. Outside "
-    "fragment F1 (wildcards, mixed, anyType, nillable, tokens, wrapper, sequence, compound fields, Attributes, xsi:type/"
-    "inheritance, unions, init=False, QName values) the executable model is compared with the real generator, parser and the "
-    "four writer x handler combinations, but no round-trip theorem is claimed yet."
+    "Partial. generate -> abstract writer -> parseRoot is the identity, with no converter warning, for every parser config, both "
+    "settings of ignore_default_attributes and every Unicode Env: bind_generate_F1 / bind_generate_anyNamespaces (Props/C01.lean: "
+    "attributes, primitive- and model-typed elements optional/required/list, a text var, every combination of class and field "
+    "namespaces) and bind_generate_F2..F7 / bind_generate_FN (Props/C01Wide.lean: + nillable vars and classes, token lists, wrapper "
+    "lists, sequence groups, one Attributes map per class, init=False fields, instances of proper subclasses with xsi:type resolved "
+    "through the prefix map), under decidable hypotheses ctxOK (universe) and valOK/valOKI (instance) that the driver evaluates on "
+    "exported real universes; each remaining value-level exclusion that is a defect has a machine-checked witness replayed on the "
+    "real code, the eight defects repaired by repo-patches c01g-01..08 have *_repaired theorems. Outside these fragments (wildcards, "
+    "mixed content, anyType, compound fields, unions, QName-typed and non str/int/bool values, DerivedElements, a text var next to "
+    "child elements) the executable model is compared with the real generator, parser and the four writer x handler combinations, "
+    "but no round-trip theorem is claimed yet."
 )
 LEVEL_NOTE = (
     "Trusted: Lean kernel; metadata exported from the real XmlContext.build is input of the model (builders.py not modelled); "
